@@ -278,7 +278,7 @@ CONDITIONS = [
                                    [{'shape': sh, 'capture': 'all', 'static': False, 'which': 4} for sh in ('list', 'object')],
                          'witness_shard': _W},
                'thorough': {'bounds': {'AL': 3, 'SL': 2, 'IMAX': 1000}, 'timeout': 3000,
-                            'shards': [dict(x, which=w) for x in _TSH for w in range(5)], 'witness_shard': _W}}},
+                            'shards': [dict(x, which=w) for x in _QSH for w in range(5)], 'witness_shard': _W}}},
     {'fn': 'values_only', 'nontrivial': 'mutated-between-calls',
      'what': 'key = function of argument values at call time: mutated object, equal-hash values (1 vs True), call history',
      'tiers': {'quick': {'bounds': {}, 'timeout': 200, 'shards': [{}]},
